@@ -175,9 +175,10 @@ class MPIRun(LaunchMethod):
             else:
                 save_list = core_list
 
+        dplace = self._dplace
         if '_dplace' in self.name:
-            self._dplace += ' -c '
-            self._dplace += ','.join(core_list)
+            dplace += ' -c '
+            dplace += ','.join(core_list)
 
 
         # If we have a task with many cores, we will create a hostfile and pass
@@ -213,7 +214,7 @@ class MPIRun(LaunchMethod):
 
         cmd = '%s %s %s %s %s %s %s %s' % \
             (self._ccmrun, self._command, mpt_hosts_string, options,
-             self._dplace, self._omplace, hosts_string, exec_path)
+             dplace, self._omplace, hosts_string, exec_path)
 
         return cmd.strip()
 
